@@ -1379,6 +1379,14 @@ func main() {
 	writeIfChanged(filepath.Join(*out, "GenFrameUse.v"), w.Bytes())
 	fmt.Printf("go2v: GenFrameUse.v %d frame-use rows, %d hand-over sites\n", nfu, nfx)
 
+	// GenMexProg.v (C05): forwardPeerFrame / recvPeerFrame of mex.go as channel programs (chanprog.go)
+	w.Reset()
+	fmt.Fprintf(&w, header, *repo)
+	fmt.Fprintf(&w, "From Coq Require Import List.\nFrom Verif Require Import Spec.ChanProg.\nImport ListNotations.\n")
+	ncp := root.chanProgsSafe(&w)
+	writeIfChanged(filepath.Join(*out, "GenMexProg.v"), w.Bytes())
+	fmt.Printf("go2v: GenMexProg.v %d channel programs\n", ncp)
+
 	// GenTypedBuf.v, GenMessages.v ...: byte-buffer methods and message codecs (methods.go)
 	emitMethodFiles(all, *repo, *out)
 }
